@@ -66,21 +66,30 @@ EncLen(f, v) ==
 ---------------------------------------------------------------------------
 (* Records, sets, messages *)
 
+\* concatenation of a sequence of sequences, balanced (O(total log n) copying; the
+\* CommunityModules FlattenSeq is a left fold, quadratic on thousands of pieces)
+RECURSIVE CatRange(_, _, _)
+CatRange(s, a, b) ==
+  IF a > b THEN << >>
+  ELSE IF a = b THEN s[a]
+  ELSE LET m == (a + b) \div 2 IN CatRange(s, a, m) \o CatRange(s, m + 1, b)
+Flat(s) == CatRange(s, 1, Len(s))
+
 FieldSpec(f) ==
   IF f.ent # 0
     THEN BE2(f.id + 32768) \o BE2(f.len) \o BE4(f.ent)
     ELSE BE2(f.id) \o BE2(f.len)
 
 EncTemplateRecord(tid, fields) ==
-  BE2(tid) \o BE2(Len(fields)) \o FlattenSeq([i \in 1..Len(fields) |-> FieldSpec(fields[i])])
+  BE2(tid) \o BE2(Len(fields)) \o Flat([i \in 1..Len(fields) |-> FieldSpec(fields[i])])
 
 EncDataRecord(fields, vals) ==
-  FlattenSeq([i \in 1..Len(fields) |-> EncValue(fields[i], vals[i])])
+  Flat([i \in 1..Len(fields) |-> EncValue(fields[i], vals[i])])
 
+\* (sums and parsers are written as FoldLeft: TLC evaluates it iteratively, whereas a RECURSIVE
+\*  operator thousands of levels deep makes every symbol lookup walk the whole context chain)
 DataRecordLen(fields, vals) ==
-  LET RECURSIVE S(_)
-      S(i) == IF i = 0 THEN 0 ELSE S(i - 1) + EncLen(fields[i], vals[i])
-  IN S(Len(fields))
+  FoldLeftDomain(LAMBDA acc, i : acc + EncLen(fields[i], vals[i]), 0, fields)
 
 \* a set given its id and the concatenated record bytes
 EncSet(setId, recBytes) == BE2(setId) \o BE2(SetHdrLen + Len(recBytes)) \o recBytes
@@ -88,17 +97,25 @@ EncSet(setId, recBytes) == BE2(setId) \o BE2(SetHdrLen + Len(recBytes)) \o recBy
 EncTemplateSet(tid, fields) == EncSet(TemplateSetId, EncTemplateRecord(tid, fields))
 
 EncDataSet(tid, fields, recs) ==
-  EncSet(tid, FlattenSeq([i \in 1..Len(recs) |-> EncDataRecord(fields, recs[i])]))
+  EncSet(tid, Flat([i \in 1..Len(recs) |-> EncDataRecord(fields, recs[i])]))
 
 \* time < 2^31 as an integer; seq and dom as limbs
 EncMessage(time, seq, dom, setBytes) ==
   BE2(10) \o BE2(MsgHdrLen + Len(setBytes)) \o BE4(time) \o Limbs4(seq) \o Limbs4(dom) \o setBytes
 
+\* length of the specifiers of a template record (4 per field, +4 when enterprise-specific)
+MinSpecLen(fields) ==
+  FoldLeft(LAMBDA acc, f : acc + (IF f.ent # 0 THEN 8 ELSE 4), 0, fields)
+
+\* a record as the builders hold it: [kind, tid, fields, vals]
+RecBytes(r) == IF r.kind = "template" THEN EncTemplateRecord(r.tid, r.fields)
+                                      ELSE EncDataRecord(r.fields, r.vals)
+RecLen(r) == IF r.kind = "template"
+               THEN 4 + MinSpecLen(r.fields)
+               ELSE DataRecordLen(r.fields, r.vals)
+
 MinRecLen(fields) ==
-  LET RECURSIVE S(_)
-      S(i) == IF i = 0 THEN 0
-              ELSE S(i - 1) + (IF IsVar(fields[i]) THEN 1 ELSE fields[i].len)
-  IN S(Len(fields))
+  FoldLeft(LAMBDA acc, f : acc + (IF IsVar(f) THEN 1 ELSE f.len), 0, fields)
 
 ---------------------------------------------------------------------------
 (* Reference parser (independent formulation) *)
@@ -127,32 +144,34 @@ ParseField(body, pos, f) ==
 
 \* Parse one record: all fields in order.  Result [ok, vals, next].
 ParseRecord(body, pos, fields) ==
-  LET RECURSIVE P(_, _, _)
-      P(i, p, acc) ==
-        IF i > Len(fields) THEN [ok |-> TRUE, vals |-> acc, next |-> p]
-        ELSE LET r == ParseField(body, p, fields[i]) IN
-             IF ~r.ok THEN Fail ELSE P(i + 1, r.next, Append(acc, r.val))
-  IN P(1, pos, << >>)
+  FoldLeft(LAMBDA a, f :
+             IF ~a.ok THEN a
+             ELSE LET r == ParseField(body, a.next, f) IN
+                  IF ~r.ok THEN [ok |-> FALSE, vals |-> << >>, next |-> a.next]
+                  ELSE [ok |-> TRUE, vals |-> Append(a.vals, r.val), next |-> r.next],
+           [ok |-> TRUE, vals |-> << >>, next |-> pos], fields)
 
 \* Parse exactly n consecutive records from the start of body.
 \* Result [ok, recs, next] (next = position after the n-th record).
 ParseNRecords(body, fields, n) ==
-  LET RECURSIVE P(_, _, _)
-      P(k, p, acc) ==
-        IF k = n THEN [ok |-> TRUE, recs |-> acc, next |-> p]
-        ELSE LET r == ParseRecord(body, p, fields) IN
-             IF ~r.ok THEN Fail ELSE P(k + 1, r.next, Append(acc, r.vals))
-  IN P(0, 1, << >>)
+  FoldLeft(LAMBDA a, k :
+             IF ~a.ok THEN a
+             ELSE LET r == ParseRecord(body, a.next, fields) IN
+                  IF ~r.ok THEN [ok |-> FALSE, recs |-> << >>, next |-> a.next]
+                  ELSE [ok |-> TRUE, recs |-> Append(a.recs, r.vals), next |-> r.next],
+           [ok |-> TRUE, recs |-> << >>, next |-> 1], [k \in 1..n |-> k])
 
 \* Greedy parse: as many records as fit; the rest is leftover.
 ParseDataBody(body, fields) ==
-  LET RECURSIVE P(_, _)
-      P(p, acc) ==
-        IF p > Len(body) THEN [recs |-> acc, next |-> p]
-        ELSE LET r == ParseRecord(body, p, fields) IN
-             IF ~r.ok \/ r.next = p THEN [recs |-> acc, next |-> p]
-             ELSE P(r.next, Append(acc, r.vals))
-  IN P(1, << >>)
+  LET m == MinRecLen(fields)
+      bound == IF m = 0 THEN 0 ELSE Len(body) \div m
+      res == FoldLeft(LAMBDA a, k :
+                 IF a.done \/ a.next > Len(body) THEN a
+                 ELSE LET r == ParseRecord(body, a.next, fields) IN
+                      IF ~r.ok \/ r.next = a.next THEN [a EXCEPT !.done = TRUE]
+                      ELSE [done |-> FALSE, recs |-> Append(a.recs, r.vals), next |-> r.next],
+               [done |-> FALSE, recs |-> << >>, next |-> 1], [k \in 1..bound |-> k])
+  IN [recs |-> res.recs, next |-> res.next]
 
 \* C03: is "recs" an exact decoding of body under fields ?
 \*   - recs are the first Len(recs) consecutive records of body, each field at full width
@@ -175,19 +194,24 @@ ParseTemplateBody(body) ==
   ELSE
     LET tid == U16(body, 1)
         n   == U16(body, 3)
-        RECURSIVE P(_, _, _)
-        P(k, p, acc) ==
-          IF k = n THEN [ok |-> TRUE, idRead |-> TRUE, tid |-> tid, specs |-> acc, next |-> p]
-          ELSE IF p + 3 > Len(body) THEN [ok |-> FALSE, idRead |-> TRUE, tid |-> tid]
-          ELSE LET raw == U16(body, p)
-                   ln  == U16(body, p + 2) IN
-               IF raw >= 32768 THEN
-                 IF p + 7 > Len(body) THEN [ok |-> FALSE, idRead |-> TRUE, tid |-> tid]
-                 ELSE P(k + 1, p + 8,
-                        Append(acc, [id |-> raw - 32768, len |-> ln,
-                                     entb |-> SubSeq(body, p + 4, p + 7)]))
-               ELSE P(k + 1, p + 4, Append(acc, [id |-> raw, len |-> ln, entb |-> <<0, 0, 0, 0>>]))
-    IN P(0, 5, << >>)
+        \* no more than Len(body) \div 4 specifiers can be present; a larger count must fail
+        steps == IF n <= Len(body) \div 4 THEN n ELSE (Len(body) \div 4) + 1
+        res == FoldLeft(LAMBDA a, k :
+                 IF ~a.ok THEN a
+                 ELSE LET p == a.next IN
+                   IF p + 3 > Len(body) THEN [a EXCEPT !.ok = FALSE]
+                   ELSE LET raw == U16(body, p)
+                            ln  == U16(body, p + 2) IN
+                        IF raw >= 32768 THEN
+                          IF p + 7 > Len(body) THEN [a EXCEPT !.ok = FALSE]
+                          ELSE [ok |-> TRUE, next |-> p + 8,
+                                specs |-> Append(a.specs, [id |-> raw - 32768, len |-> ln,
+                                                           entb |-> SubSeq(body, p + 4, p + 7)])]
+                        ELSE [ok |-> TRUE, next |-> p + 4,
+                              specs |-> Append(a.specs, [id |-> raw, len |-> ln, entb |-> <<0, 0, 0, 0>>])],
+               [ok |-> TRUE, next |-> 5, specs |-> << >>], [k \in 1..steps |-> k])
+    IN IF res.ok THEN [ok |-> TRUE, idRead |-> TRUE, tid |-> tid, specs |-> res.specs, next |-> res.next]
+       ELSE [ok |-> FALSE, idRead |-> TRUE, tid |-> tid]
 
 \* Message header (first 20 bytes incl. the set header, as the collector reads it).
 ParseHeader(bytes) ==
